@@ -512,6 +512,16 @@ def _run_pair(case, out):
             _check_refusals(out, qa, qb, det)
         if out.disc:
             return
+        if sa_sig != sb_sig:
+            # a quantity does not become a generic SI value of another dimension by being passed to the constructor
+            # (2 km as SI(.., 's') would be 2000 s and add to seconds)
+            sb_str = ref_print(sb_sig, True, '', '.')
+            for name, src in (("quantity", qa), ("asSI()", ga)):
+                rr = _raises(lambda: U.SI(src, sb_str), (ValueError, TypeError))
+                if rr != "ok":
+                    out.fail("si-constructed-from-quantity-of-other-dimension",
+                             dict(det, source=name, unit=sb_str, got=repr(rr)))
+                    return
         _check_refusals(out, qa, ga, dict(det, other="own asSI()"))
         _check_refusals(out, ga, qa, dict(det, other="asSI() vs quantity"))
         if out.disc:
@@ -795,3 +805,4 @@ def run_case(case):
 
 
 RULE = RULE + " " + "Later additions: the class-level printer Quantity.sidict_to_unit with the caller's key order and zero entries round-trips through the parser (the '1' placeholder of an empty numerator is stripped)."
+RULE = RULE + (" Round 20: constructing SI(q, <unit string of another dimension>) from a quantity q (or its asSI()) is refused.")
